@@ -251,7 +251,10 @@ class CustomState(BaseState):
         """
         if self.index is not None:
             assert isinstance(self.composite_envelope, CompositeEnvelope)
-            return self.composite_envelope.measure_POVM(operators, self)
+            # Custom state can not be destroyed
+            return self.composite_envelope.measure_POVM(
+                operators, self, destructive=False
+            )
 
         for op in operators:
             assert op.shape == (self.dimensions, self.dimensions)
